@@ -77,10 +77,22 @@ fn ask_shortfall(pool: &PoolInfo, before: &[u128], after: &[u128]) -> Option<(Bi
         let value_two_offer_units = if y > y2 { &y - &y2 } else { BigUint::from(0u32) };
         let aj = &a[j] * &r;
         let short = if y > aj { &y - &aj } else { BigUint::from(0u32) };
-        let tol = (&unit_j * 8u32 + BigUint::from(2u32)) * &r + value_two_offer_units;
+        let tol = (&unit_j * 8u32 + BigUint::from(2u32)) * &r + value_two_offer_units + fixed_point_slack(mx, &d0);
         return Some((short, tol));
     }
     None
+}
+
+/// Fixed-point slack of the swap path, in normalised units x RES: the contract iterates D as an
+/// 18-digit decimal of WHOLE tokens, so intermediate products of the order D_tokens^2 carry a
+/// relative error of 10^-18 / D_tokens^2 and D itself an absolute error of about 10^-18 / D_tokens
+/// tokens = 10^(2*maxdec-18) / D_normalised normalised units (x4 for the output's sensitivity).
+pub fn fixed_point_slack(mxd: u32, d_scaled: &BigUint) -> BigUint {
+    if d_scaled == &BigUint::from(0u32) || 2 * mxd < 18 {
+        return BigUint::from(0u32);
+    }
+    let r = res();
+    BigUint::from(4u32) * BigUint::from(10u64).pow(2 * mxd - 18) * &r * &r / d_scaled
 }
 
 /// degenerate pool: normalised reserves skewed beyond 1000:1, an asset with < 1000 smallest units,
